@@ -427,10 +427,18 @@ def check_class(run, rid, prog, cls, what, known_ok=(), subclasses=None):
                                "and the stored value is used unchanged under any later units context (%s)" % (lead, what),
                        loc=m.func.loc(m.guard), sample={"memo": m.attr, "units_dependent": units})
         # ambient basis
-        ok_basis = (not basis) or ("basis" in guard_text)
+        # every change of basis of a managed object goes through its transform(): a stored value that was computed from
+        # basis-managed data is kept in step only if transform() resets (or rewrites) it.  A guard on the basis *id* is
+        # not enough - the id is the depth of the context stack, two contexts at the same depth share it.
+        ok_basis = not basis
+        if basis:
+            trs = [fn_ for nme_, fn_ in methods.items() if fn_.name == "transform"]
+            watched = {m.attr} | set(getattr(m, "flag_attrs", set())) | set(getattr(m, "stored", set()))
+            ok_basis = any(watched & set(attrs_written(fn_.node)) for fn_ in trs)
         run.obligation(rid, m.func.short, ok_basis, key=key + ":basis",
-                       message="%s; the computation reads basis-managed data in the basis current at the first call, and the "
-                               "stored value is used unchanged in any other basis (%s)" % (lead, what),
+                       message="%s; the computation reads basis-managed data in the basis current at the first call, and no transform() of "
+                               "the class resets the stored value, so it is used unchanged in another basis (a guard on the basis id does "
+                               "not tell two contexts of the same depth apart) (%s)" % (lead, what),
                        loc=m.func.loc(m.guard), sample={"memo": m.attr, "basis_dependent": basis})
         # effects skipped on objects other than self
         if m.kind == "effect-skip" and not getattr(m, "switch", False):
